@@ -29,6 +29,13 @@ def run(ctx):
     for k in range(n):
         cfg = P.random_cfg(ctx.rng, max_models=2, max_steps=ctx.pick(24, 64), kinds=("obs", "set", "add", "padd"),
                            big_ticks=True, p_img=0.95, prior_p=0.6)
+        if k % 6 == 5:
+            # almost uniform sampling: long steps that differ by one tick (relative difference below 1e-5)
+            step, t, pts = 1 << 17, 0, []
+            for _ in range(ctx.rng.randint(3, 8)):
+                t += step + ctx.rng.choice([0, 1, 1, 2])
+                pts.append(t)
+            cfg["times"], cfg["start"] = pts, 0
         jobs.append(dict(cfg=cfg, readout_how=ctx.rng.choice(HOWS), kind=ctx.rng.choice(["ccd", "cmos", "mkid", "apd"])))
     traces = P.record(jobs)
     ctx.cov["recorded_random"] += len(traces)
